@@ -125,8 +125,10 @@ fn gen_case(r: &mut Rng, p: &Params, out: &mut Vec<String>) {
             g.max_ever = g.max_ever.max(g.height.unwrap());
             continue;
         }
-        if !in_block && roll < 16 {
-            let what = *r.pick(&["commit", "commit", "clear", "reopen"]);
+        if (!in_block && roll < 16) || (in_block && roll < 3) {
+            // mid-block only clearCaches is possible: it also forgets the block under construction
+            let what = if in_block { "clear" } else { *r.pick(&["commit", "commit", "clear", "reopen"]) };
+            in_block = false;
             out.push(what.to_string());
             if what == "commit" {
                 committed = Some(g.clone());
@@ -185,12 +187,61 @@ fn gen_case(r: &mut Rng, p: &Params, out: &mut Vec<String>) {
             out.push(gen_read(r, &g));
             continue;
         }
+        if !in_block && roll < 34 && g.height.is_some() {
+            // window-edge scenario: park nonce+1, let exactly 9 / 10 / 11 blocks pass, then submit the missing nonce
+            let s = 1 + r.below(3) as u8;
+            let acct = *g.nonces.get(&s).unwrap_or(&0);
+            if !g.pool.contains_key(&(s, acct + 1)) {
+                let k = *r.pick(&[9u64, 10, 10, 11]);
+                let p_block = g.next();
+                g.hash += 1;
+                out.push(format!(
+                    "transact signer={} nonce={} to=create:store data= ts={} hash={} idx=0 insc=i{} len={} txid={} field=hex chain=ok junk=false exp=0",
+                    s, acct + 1, g.ts + 600, h256(1_000_000 + g.hash), g.insc, 60_000 + r.below(50_000), h256(0xabc000 + g.insc + 1)
+                ));
+                g.insc += 1;
+                g.pool.insert((s, acct + 1), p_block);
+                g.ts += 600;
+                out.push(format!("mine count={} ts={}", k, g.ts));
+                for _ in 0..k {
+                    let h = g.next();
+                    expire_pool(&mut g, h);
+                    g.height = Some(h);
+                    snaps.insert(h, g.clone());
+                }
+                g.max_ever = g.max_ever.max(g.height.unwrap());
+                // the missing nonce arrives in block p_block + k
+                g.ts += 600;
+                g.hash += 1;
+                let bh = 1_000_000 + g.hash;
+                let h = g.next();
+                let mut appended = 1;
+                if let Some(pb) = g.pool.remove(&(s, acct + 1)) {
+                    if pb + W > h {
+                        appended += 1;
+                    }
+                }
+                g.nonces.insert(s, acct + appended);
+                out.push(format!(
+                    "transact signer={} nonce={} to=create:store data= ts={} hash={} idx=0 insc=i{} len={} txid={} field=hex chain=ok junk=false exp={}",
+                    s, acct, g.ts, h256(bh), g.insc, 60_000 + r.below(50_000), h256(0xabc000 + g.insc + 1), appended
+                ));
+                g.insc += 1;
+                out.push(format!("fin ts={} hash={} count={}", g.ts, h256(bh), appended));
+                let hh = g.next();
+                expire_pool(&mut g, hh);
+                g.height = Some(hh);
+                g.max_ever = g.max_ever.max(hh);
+                snaps.insert(hh, g.clone());
+            }
+            continue;
+        }
         if roll < 36 {
             // a protocol violation; must be rejected without effect
             let which = if in_block {
                 *r.pick(&["idx", "ts", "hash", "fincount", "commitmid", "reorgmid", "minemid", "bothfields", "nofield", "badpk"])
             } else {
-                *r.pick(&["idx", "duphash", "fincount", "bothfields", "nofield", "badpk", "initagain"])
+                *r.pick(&["idx", "duphash", "duphash", "duphash", "dupfin", "fincount", "bothfields", "nofield", "badpk", "initagain"])
             };
             let hash = if in_block { block_hash } else { 1_000_000 + g.hash + 1 };
             let ts = if in_block { g.ts } else { g.ts + 600 };
@@ -279,8 +330,8 @@ fn gen_case(r: &mut Rng, p: &Params, out: &mut Vec<String>) {
                     }
                 }
                 out.push(format!(
-                    "transact signer={} nonce={} to={} data={} {} len=auto txid={} field={} chain={} junk={} exp={}",
-                    s, nonce, to, hex::encode(&data), base, txid, field, if wrong_chain { "wrong" } else { "ok" }, junk, appended
+                    "transact signer={} nonce={} to={} data={} {} len={} txid={} field={} chain={} junk={} exp={}",
+                    s, nonce, to, hex::encode(&data), base, 60_000 + r.below(50_000), txid, field, if wrong_chain { "wrong" } else { "ok" }, junk, appended
                 ));
                 appended
             }
@@ -403,6 +454,7 @@ struct Ctx {
     height: Option<u64>,
     chain_id: u64,
     kinds: BTreeMap<String, String>, // inscription id of a deploy -> contract kind
+    inscribed_len: BTreeMap<(String, u64), u64>, // (signer address, nonce) -> inscription length of the latest submission
     /// tx hashes handed out more than once (known finding F11), with the blocks they were reported in
     dup_blocks: BTreeSet<u64>,
 }
@@ -638,6 +690,7 @@ pub fn exec(lines: &[String], out: &mut Out, scratch: &Path) {
                 chain_id: v::CONFIG.read().chain_id,
                 dup_blocks: BTreeSet::new(),
                 kinds: BTreeMap::new(),
+                inscribed_len: BTreeMap::new(),
             });
             continue;
         }
@@ -829,6 +882,27 @@ fn on_accepted(ctx: &mut Ctx, op: &str, f: &BTreeMap<String, String>, resp: &Res
         _ => {}
     }
     if op == "transact" {
+        // remember the allowance each signed transaction was inscribed with (a parked one keeps it until drained)
+        let signer = Signer::new(f.get("signer").and_then(|s| s.parse().ok()).unwrap_or(1));
+        let me = format!("{:?}", signer.address()).to_lowercase();
+        if let (Some(n), Some(l)) = (f.get("nonce").and_then(|s| s.parse::<u64>().ok()), f.get("len").and_then(|s| s.parse::<u64>().ok())) {
+            if f.get("chain").map(|s| s == "ok").unwrap_or(false) && f.get("junk").map(|s| s == "false").unwrap_or(false) {
+                ctx.inscribed_len.insert((me.clone(), n), l);
+            }
+        }
+        for r in &receipts {
+            if let Some(tx) = r["transactionHash"].as_str().and_then(|h| ctx.main.call("eth_getTransactionByHash", json!([h])).ok) {
+                let hexn = |v: &Value| v.as_str().map(|s| u64::from_str_radix(s.trim_start_matches("0x"), 16).unwrap_or(u64::MAX));
+                let from = tx["from"].as_str().unwrap_or("").to_lowercase();
+                if let (Some(n), Some(gas)) = (hexn(&tx["nonce"]), hexn(&tx["gas"])) {
+                    if let Some(l) = ctx.inscribed_len.get(&(from.clone(), n)) {
+                        if gas != l.saturating_mul(12000) {
+                            out.oracle_fail(&case, "pool-gas", &format!("signed tx of {} nonce {} was inscribed with {} bytes but runs with a gas allowance of {}", from, n, l, gas));
+                        }
+                    }
+                }
+            }
+        }
         let exp: usize = f.get("exp").and_then(|s| s.parse().ok()).unwrap_or(0);
         if receipts.len() != exp {
             out.oracle_fail(&case, "pool-receipts", &format!("brc20_transact returned {} receipts, the reference pool appends {}: signer {} nonce {}", receipts.len(), exp, f.get("signer").cloned().unwrap_or_default(), f.get("nonce").cloned().unwrap_or_default()));
@@ -1280,6 +1354,11 @@ fn exec_bad(ctx: &mut Ctx, f: &BTreeMap<String, String>, out: &mut Out) {
             let h0 = ctx.main.call("eth_getBlockByNumber", json!(["latest", false])).ok.and_then(|b| b["hash"].as_str().map(|s| s.to_string())).unwrap_or(h256(1));
             let (m, p) = dep(ts, &h0, 0, json!(code), Value::Null, PKS[0]);
             (m, p, true, flat(ts, &h0, 0, "ok", true))
+        }
+        "dupfin" => {
+            // finalising an empty block under the hash of an existing block
+            let h0 = ctx.main.call("eth_getBlockByNumber", json!(["latest", false])).ok.and_then(|b| b["hash"].as_str().map(|s| s.to_string())).unwrap_or(h256(1));
+            ("brc20_finaliseBlock".into(), json!([ts, h0, 0]), true, format!("fin ts={} hash={} count=0", ts, h0))
         }
         "initagain" => (
             "brc20_initialise".into(),
